@@ -5,6 +5,7 @@ Unknown or ill-formed requests answer `bad-op`; the model never defaults.
 import DnaModel.Model.Seq
 import DnaModel.Model.Loc
 import DnaModel.Model.Pattern
+import DnaModel.Model.Space
 
 open Dna
 
@@ -138,6 +139,104 @@ def handlePat : List String → Option String
     pure s!"{p.size} {p.isPalindromic}"
   | _ => none
 
+/-! ### mutation spaces -/
+
+def variantsOf (s : String) : List Seq :=
+  if s == "" then [] else (s.splitOn ",").map seqOf
+
+/-- `start:stop:v1,v2,...` -/
+def restriction? (s : String) : Option Space.Restriction :=
+  match s.splitOn ":" with
+  | [a, b, vs] => do pure ⟨← nat? a, ← nat? b, variantsOf vs⟩
+  | _ => none
+
+def choice? (s : String) : Option Choice :=
+  match s.splitOn ":" with
+  | [a, b, vs] => do pure { start := ← nat? a, stop := ← nat? b, variants := variantsOf vs }
+  | _ => none
+
+def restrictions? : List String → Option (List Space.Restriction)
+  | [] => some []
+  | r :: rs => do pure ((← restriction? r) :: (← restrictions? rs))
+
+def splitBar (toks : List String) : List (List String) :=
+  toks.foldr (fun t acc => if t == "|" then [] :: acc else match acc with
+    | [] => [[t]]
+    | g :: gs => (t :: g) :: gs) [[]]
+
+def sortedVariants (vs : List Seq) : String := joinWith "," ((sortSeqs vs).map seqStr)
+def choiceStr (c : Choice) : String := s!"{c.start}-{c.stop}:{sortedVariants c.variants}"
+def choicesStr (cs : List Choice) : String := if cs.isEmpty then "-" else joinWith " " (cs.map choiceStr)
+
+def spaceErrStr : SpaceErr → String
+  | .valueError => "ValueError"
+  | .crash _ => "crash"
+  | .tape => "tape-error"
+
+def nats? : List String → Option (List Nat)
+  | [] => some []
+  | a :: rest => do pure ((← nat? a) :: (← nats? rest))
+
+def buildSpace (parts : List String) : Option (Except SpaceErr Space) :=
+  match parts with
+  | s :: rs => do
+    let rs ← restrictions? rs
+    pure (Space.fromRestrictions (seqOf s) rs)
+  | _ => none
+
+def localizedOpt (sp : Space) : List String → Option Space
+  | ["-", "-"] => some sp
+  | [a, b] => do pure (sp.localized (← int? a) (← int? b))
+  | _ => none
+
+def handleSpace (toks : List String) : Option String :=
+  match toks with
+  | cmd :: rest =>
+    match splitBar rest with
+    | build :: args => do
+      let esp ← buildSpace build
+      match esp with
+      | .error e => pure (spaceErrStr e)
+      | .ok sp =>
+        match cmd, args with
+        | "space.build", [] =>
+          pure (choicesStr sp.choicesList ++ " | unsolvable " ++
+            joinWith " " (sp.unsolvable.map (fun p => s!"{p.1}-{p.2}")))
+        | "space.localized", [loc] => do
+          let l ← localizedOpt sp loc
+          let pad := (l.index.takeWhile (·.isNone)).length
+          let span := match l.choicesSpan with | none => "None" | some (a, b) => s!"{a}-{b}"
+          pure s!"{choicesStr l.choicesList} | pad {pad} len {l.index.length} | span {span} | size {l.sizeProduct}"
+        | "space.constrain", [[sq], tape] => do
+          let t ← nats? tape
+          pure (match sp.constrainSequence (seqOf sq) t with
+            | .error e => spaceErrStr e
+            | .ok (r, t') => s!"{seqStr r} used {t.length - t'.length}")
+        | "space.apply", [loc, [n], [sq], tape] => do
+          let l ← localizedOpt sp loc
+          let t ← nats? tape
+          pure (match l.applyRandomMutations (← nat? n) (seqOf sq) t with
+            | .error e => spaceErrStr e
+            | .ok (r, t') => s!"{seqStr r} used {t.length - t'.length}")
+        | "space.all", [loc, [sq]] => do
+          let l ← localizedOpt sp loc
+          pure (match l.allVariants (seqOf sq) with
+            | .error e => spaceErrStr e
+            | .ok vs => joinWith " " (vs.map seqStr))
+        | _, _ => none
+    | _ => none
+  | _ => none
+
+def handleChoice : List String → Option String
+  | "choice.merge" :: self :: others => do
+    let c ← choice? self
+    let os ← others.mapM choice?
+    pure (match c.mergeWith os with | none => "crash" | some r => choiceStr r)
+  | ["choice.extract", c] => do
+    let c ← choice? c
+    pure (choicesStr c.extractVaryingRegion)
+  | _ => none
+
 def handle (toks : List String) : String :=
   match toks with
   | [] => "bad-op"
@@ -146,6 +245,8 @@ def handle (toks : List String) : String :=
       if cmd.startsWith "loc." then handleLoc toks
       else if cmd.startsWith "seq." then handleSeq toks
       else if cmd.startsWith "pat." then handlePat toks
+      else if cmd.startsWith "space." then handleSpace toks
+      else if cmd.startsWith "choice." then handleChoice toks
       else none
     r.getD "bad-op"
 
